@@ -27,7 +27,7 @@ FILE_CHECKS = {
     "project.py": ["C04", "C06", "C01", "C16"],
     "report.py": ["C01", "C06", "C13", "C18", "C14"],
     "global_licensing.py": ["C05", "C04", "C16", "C17"],
-    "lint.py": ["C13"],
+    "lint.py": ["C13", "C14"],
     "convert_dep5.py": ["C17"],
     "download.py": ["C19", "C15"],
     "_util.py": ["C04", "C06", "C18", "C19", "C14"],
